@@ -7,7 +7,7 @@ import (
 type timerObj struct {
 	id     int
 	armed  bool
-	dur    *Term // Int nanoseconds (time.Duration)
+	dur    *Term // BV64 nanoseconds (time.Duration)
 	fn     Val
 	fired  int
 	setAt  *Term // model seconds when armed
@@ -176,6 +176,36 @@ func init() {
 		was := t.armed
 		t.armed = false
 		return ret(mkBool(was))
+	}
+	rp := "github.com/couchbaselabs/rosmar."
+	stubs[rp+"verifTimerArmed"] = func(e *Exec, th *Thread, c *CallCtx, a []Val) StubRes {
+		nv, ok := a[0].(*NativeV)
+		if !ok {
+			return ret(tFalse)
+		}
+		return ret(mkBool(nv.Data.(*timerObj).armed))
+	}
+	stubs[rp+"verifTimerWithin"] = func(e *Exec, th *Thread, c *CallCtx, a []Val) StubRes {
+		nv, ok := a[0].(*NativeV)
+		if !ok {
+			return ret(tFalse)
+		}
+		t := nv.Data.(*timerObj)
+		if !t.armed {
+			return ret(tFalse)
+		}
+		exp := tBVResize(a[1].(*Term), 64, false)
+		setAt := mkBV(64, 0)
+		if t.setAt != nil {
+			setAt = tBVResize(tBVResize(t.setAt, 32, false), 64, false) // nowAsExpiry truncates to uint32
+		}
+		secs := tBVBin("bvsub", exp, setAt)
+		lim := tIte(tBVCmp("bvslt", secs, mkBV(64, 0)), mkBV(64, 0), tBVBin("bvmul", secs, mkBV(64, 1000000000)))
+		if lim.Op == "ite" {
+			// compare per case so that the overflow-free rewrite applies
+			return ret(tIte(lim.Args[0], tBVCmp("bvsle", t.dur, lim.Args[1]), tBVCmp("bvsle", t.dur, lim.Args[2])))
+		}
+		return ret(tBVCmp("bvsle", t.dur, lim))
 	}
 	stubs["context.TODO"] = func(e *Exec, th *Thread, c *CallCtx, a []Val) StubRes {
 		return ret(&IfaceV{T: sentinelType, V: &NativeV{Kind: "ctx", Data: "context.TODO"}})
